@@ -153,3 +153,67 @@ Fixpoint skippable (t : wtree) : Prop :=
   | TSimple1 _ => False
   | _ => True
   end.
+
+(* ------------------------------------------------------------------ *)
+(* the same vocabulary extended to tag 0 (standard date/time string, RFC 8949 3.4.1): the library
+   reads it as a time.Time.  The names above are kept as they are (tags 0..5 outside); the [_t]
+   versions agree with them on every tree [lib_supports] admits (CborProofs.compat_t). *)
+Definition text_of (t : wtree) : option (list N) :=
+  match t with
+  | TText _ s | TBytes _ s => Some s
+  | TTextI cs | TBytesI cs => Some (flat_map snd cs)
+  | _ => None
+  end.
+
+Definition time_item (s : list N) : item := match parse_rfc3339 s with Ok i => i | _ => INil end.
+
+Fixpoint go_of_t (D : dopts) (x : sdata) : item :=
+  match x with
+  | DUint n => if do_signed D then IInt (Z.of_N n) else IUint n
+  | DNint n => IInt (-1 - Z.of_N n)
+  | DBytes s => if do_raw2str D then IStr s else IBytes s
+  | DText s => IStr s
+  | DArr l => IArr (map (go_of_t D) l)
+  | DMap l => IMap (map (fun kv => (keynorm (go_of_t D (fst kv)), go_of_t D (snd kv))) l)
+  | DTag t v =>
+      if t =? 0 then match v with DText s | DBytes s => time_item s | _ => INil end
+      else if (t =? 55799) || do_skiptags D then go_of_t D v else ITag t (go_of_t D v)
+  | DSimple v => if v =? 20 then IBool false else if v =? 21 then IBool true else INil
+  | DFloat p b => if p =? 16 then IF64 (widen (spec_half b)) else if p =? 32 then IF64 (widen b) else IF64 b
+  end.
+
+Fixpoint keys_ok_t (D : dopts) (seen : list item) (l : list (wtree * wtree)) : Prop :=
+  match l with
+  | [] => True
+  | kv :: r =>
+      let k := keynorm (go_of_t D (data_of (fst kv))) in
+      hashable k = true /\ existsb (key_eqb k) seen = false /\ keys_ok_t D (k :: seen) r
+  end.
+
+Fixpoint lib_supports_t (D : dopts) (t : wtree) : Prop :=
+  match t with
+  | TUint _ n => do_signed D = true -> n < 9223372036854775808
+  | TNint _ n => n < 9223372036854775808
+  | TBytes _ s | TText _ s => N.of_nat (length s) < 9223372036854775808
+  | TBytesI cs | TTextI cs => Forall (fun c => N.of_nat (length (snd c)) < 9223372036854775808) cs
+  | TArr _ l | TArrI l => (fix go l := match l with [] => True | x :: r => lib_supports_t D x /\ go r end) l
+                          /\ N.of_nat (length l) < 9223372036854775808
+  | TMap _ l | TMapI l =>
+      (fix go l := match l with [] => True | kv :: r => lib_supports_t D (fst kv) /\ lib_supports_t D (snd kv) /\ go r end) l
+      /\ keys_ok_t D [] l /\ N.of_nat (length l) < 9223372036854775808
+  | TTag _ t v =>
+      (5 < t /\ lib_supports_t D v)
+      \/ (t = 0 /\ lib_supports_t D v /\
+          match text_of v with Some s => exists i, parse_rfc3339 s = Ok i | None => False end)
+  | TSimple v => 20 <= v
+  | TSimple1 _ => False
+  | _ => True
+  end.
+
+Fixpoint tdepth_t (D : dopts) (t : wtree) : Z :=
+  match t with
+  | TArr _ l | TArrI l => (1 + fold_right (fun x m => Z.max (tdepth_t D x) m) 0 l)%Z
+  | TMap _ l | TMapI l => (1 + fold_right (fun kv m => Z.max (Z.max (tdepth_t D (fst kv)) (tdepth_t D (snd kv))) m) 0 l)%Z
+  | TTag _ t v => if t =? 0 then 0%Z else if (t =? 55799) || do_skiptags D then tdepth_t D v else (1 + tdepth_t D v)%Z
+  | _ => 0%Z
+  end.
